@@ -582,6 +582,32 @@ package raft
 //@   ensures [C20.lock-released] result0 == nil ==> !fs[pjoin(dir, "lock")]
 //@   ensures forall(p, p != pjoin(dir, "lock") ==> fs[p] == old(fs[p]))
 
+// Serve (C20): the storage directory is locked for as long as this instance serves it, and an instance that is
+// refused (the lock exists) leaves the lock of the running instance alone. The rest of Serve (goroutines, the state
+// loop, shutdown) is executed with its uncontracted callees havocking the heap; the lock obligation is decided on
+// the refusal path, where none of them runs. gdirname: filepath.Dir (T-std).
+//@ ghost func gdirname(string) uint64
+//@ ghost var gservClosed bool
+//@ func path/filepath.Dir params(path)
+//@   trusted
+//@   ensures result0 == gdirname(path)
+// (closing a channel touches no modelled state)
+//@ func safeClose params(ch)
+//@   props C20
+// (T-go: stops the accept loop and closes the listener; no raft state, no file)
+//@ func (*server).shutdown params(s)
+//@   trusted
+//@ func (*Raft).Serve params(r, l)
+//@   props C20
+//@   requires r.storage != nil && r.snaps != nil && r.fsm != nil && r.logger != nil && l != nil
+//@   modifies *
+//@   maypanic *
+//@   ensures [C20.refused-instance-leaves-the-lock] old(fs[LockPath(gdirname(r.snaps.dir))]) ==> fs[LockPath(gdirname(old(r.snaps.dir)))]
+//@   ensures [C20.second-instance-refused] old(fs[LockPath(gdirname(r.snaps.dir))]) && !gservClosed ==> result0 != nil
+//@   ghostcode after call isClosed 1: gservClosed := result0
+//@   loop 1 invariant true
+//@   loop 2 invariant true
+
 // openValue: callers (SetIdentity, openStorage) use a trusted abstract view (T-abs); the function itself is proved
 // against a model of the name pipeline Glob -> Base -> TrimSuffix -> IndexByte -> ParseInt (T-std):
 // a value file written by value.set for ANY pair of uint64 values must reopen to that pair (C10, C05).
